@@ -6,7 +6,7 @@ from core import Case, nlist
 from pyerr import canon_call, exc_code
 
 PROP = 'C18'
-COQ_TARGETS = ['theories/AddrFacts.vo', 'theories/AddrIp.vo']
+COQ_TARGETS = ['theories/AddrFacts.vo', 'theories/AddrParse.vo', 'theories/AddrOld.vo', 'theories/AddrEntry.vo', 'theories/AddrIp.vo']
 COQ_IMPORTS = 'From Bac Require Import Base Addr.'
 RULE = ('cases: grammar-generated address texts over every notation (station 0..255 all, x networks {0,1,65533,65534,65535,65536,99999}; '
         'dotted quads over boundary octets x mask lengths 0..33,99 x ports {0,1,47807,47808,47823,47824,65535,65536,70000}; 0x / X\'\' octet '
@@ -674,7 +674,12 @@ def direct(rng, tier, focus=()):
         except Exception as e:
             fail('print-parse-raises', spec, exc=repr(e)[:160])
             return
-        if not (x == y and y == x) or hash(x) != hash(y) or (x.addrType, x.addrNet, x.addrAddr) != (y.addrType, y.addrNet, y.addrAddr):
+        try:
+            hx, hy = hash(x), hash(y)
+        except Exception as e:
+            fail('hash-raises', spec, exc=repr(e)[:120])
+            return
+        if not (x == y and y == x) or hx != hy or (x.addrType, x.addrNet, x.addrAddr) != (y.addrType, y.addrNet, y.addrAddr):
             fail('print-parse-differs', spec, text=text, got=[y.addrType, repr(y.addrNet), repr(y.addrAddr)])
 
     # D1/D2/D3 over the text stream, the mutated/random streams and the other constructors
@@ -743,10 +748,13 @@ def direct(rng, tier, focus=()):
         elif eq != (d1 == d2):
             fail('eq-wrong' if d1 == d2 else 'eq-conflates-distinct-addresses', s1, other=jspec(s2))
         elif eq:
-            if hash(a) != hash(b) or a._tuple() != b._tuple():
-                fail('equal-but-hash-differs', s1, other=jspec(s2))
-            elif b not in {a: 1} or {a: 1}.get(b) != 1:
-                fail('equal-but-dict-miss', s1, other=jspec(s2))
+            try:
+                if hash(a) != hash(b) or a._tuple() != b._tuple():
+                    fail('equal-but-hash-differs', s1, other=jspec(s2))
+                elif b not in {a: 1} or {a: 1}.get(b) != 1:
+                    fail('equal-but-dict-miss', s1, other=jspec(s2))
+            except Exception as e:
+                fail('hash-raises', s1, other=jspec(s2), exc=repr(e)[:120])
         nontriv.add(('pair', repr(s1), repr(s2)))
     for den, sp, a in objs:
         if not (a == a):
@@ -761,8 +769,11 @@ def direct(rng, tier, focus=()):
             fail('eq-not-transitive', s1, other=jspec(s2), third=jspec(s3))
     # routing-table style use: one dict keyed by every spelling; each denoted address occupies exactly one entry
     table = {}
-    for den, sp, a in objs:
-        table.setdefault(a, den)
+    try:
+        for den, sp, a in objs:
+            table.setdefault(a, den)
+    except Exception:
+        table = {}
     if len(table) != len({d for d, _, _ in objs}):
         fail('dict-entries-per-address', ('A0',), entries=len(table), addresses=len({d for d, _, _ in objs}))
     samples.append({'direct': 'eq/hash/dict', 'objects': len(objs), 'denoted': len(plist)})
